@@ -9,7 +9,7 @@ use vcommon::{catch, Rng, T};
 use world::World;
 
 /// input: (seed n_blocks max_txs flags)
-fn run_history(input: &T) -> T {
+fn run_history(prop: &str, input: &T) -> T {
     let f = input.as_l();
     let seed = f[0].as_u64();
     let n_blocks = f[1].as_u64();
@@ -17,13 +17,15 @@ fn run_history(input: &T) -> T {
     let flags = f[3].as_u64();
     let mut rng = Rng::new(seed);
     let mut w = World::new(&mut rng, flags);
+    w.tamper = matches!(prop, "C03" | "C06");
+    w.dry = prop == "C45";
 
     // plans are generated block by block, but the first block's transactions exist before
     // the genesis dump so that a colliding genesis coin can be planted
     let mut first: Option<Vec<fuel_core_types::fuel_tx::Transaction>>;
     let price0 = pick_price(&mut rng, flags);
     {
-        let k = rng.range(0, max_txs);
+        let k = rng.range(1, max_txs);
         let mut txs = vec![];
         for _ in 0..k {
             txs.push(w.gen_tx(&mut rng, price0));
@@ -47,7 +49,7 @@ fn run_history(input: &T) -> T {
     let mut ins = vec![];
     let mut outs = vec![];
     for b in 0..n_blocks {
-        let gas_price = if b == 0 { price0 } else { pick_price(&mut rng, flags) };
+        let mut gas_price = if b == 0 { price0 } else { pick_price(&mut rng, flags) };
         if b > 0 {
             w.resync();
         }
@@ -58,6 +60,11 @@ fn run_history(input: &T) -> T {
                 (0..k).map(|_| w.gen_tx(&mut rng, gas_price)).collect()
             }
         };
+        if flags & world::F_HUGEFEE != 0 && rng.chance(3, 4) {
+            if let Some(p) = w.huge_price() {
+                gas_price = p;
+            }
+        }
         // resubmissions of earlier transactions (same block or earlier blocks)
         let n_re = if w.txs.is_empty() { 0 } else { rng.below(3) };
         for _ in 0..n_re {
@@ -109,16 +116,17 @@ fn gen(_prop: &str, rng: &mut Rng, n: u64, tier: &str) -> Vec<T> {
         cases.push(T::l(vec![
             T::n(rng.next() >> 16),
             T::n(rng.range(1, max_blocks)),
-            T::n(rng.range(1, if tier == "thorough" { 10 } else { 6 })),
+            T::n(rng.range(2, if tier == "thorough" { 12 } else { 8 })),
             T::n(flags),
         ]));
     }
     cases
 }
 
-fn run(_prop: &str, input: &T) -> T {
+fn run(prop: &str, input: &T) -> T {
     let input = input.clone();
-    catch(move || run_history(&input))
+    let prop = prop.to_string();
+    catch(move || run_history(&prop, &input))
 }
 
 fn main() {
